@@ -3,6 +3,8 @@ from props import COMMON_TRUST
 
 def wire_nontrivial(tok, res):
     # a case is non-trivial when the real code took a security-relevant branch
+    if not tok:
+        return False
     if tok[0] == "sniff":
         return not res.startswith("plain")          # TLS / custom TLS / refused
     if tok[0] == "raw":
@@ -19,6 +21,12 @@ def wire_nontrivial(tok, res):
         return "ca=0" not in tok                     # a verifying config in a real handshake
     if tok[0] in ("rstart", "rload", "rconn"):
         return res.startswith("up=1")                # a real frpc carried fresh markers after the step
+    if tok[0] == "cfgload":
+        return "enc=1" in tok                        # the operator wrote useEncryption: the real loader must keep it
+    if tok[0] == "wstart":
+        return res == "up=1"                         # a real frpc runs the loaded configuration
+    if tok[0] == "wobs":
+        return res.startswith("a1")                  # a conversation went through the proxy
     return False
 
 
@@ -33,6 +41,9 @@ def wire_class(r):
     if r.startswith("up=1;a="):
         f = dict(x.split("=") for x in r.split(";"))
         return "rig a=%s b=%s" % (f["a"], f["b"])
+    if r.startswith("l="):
+        f = dict(x.split("=") for x in r.split(";"))
+        return "loaded l=%s m=%s s=%s h2=%s" % (f["l"], f["m"], f["s"], f["h2"])
     if r.startswith("en="):
         f = dict(x.split("=") for x in r.split(";"))
         return "en=%s dis=%s skip=%s roots=%s" % (f["en"], f["dis"], f["skip"], f["roots"])
@@ -69,7 +80,16 @@ _T = ["sniff_custom_iff", "sniff_tls_iff", "sniff_plain_iff", "sniff_refuse_iff"
       # reload histories (start, reloads, reconnects): the running proxy is built from the configuration in force
       "sel_spec", "updateAll_inv", "start_inv", "step_inv", "run_inv", "running_built_from_current",
       "every_configured_proxy_runs", "enc_in_force_is_configured", "reload_enc_payload_never_clear",
-      "reloadObsOk_model", "gen_reload_compare", "gen_enc_wrap_conditions"]
+      "reloadObsOk_model", "gen_reload_compare", "gen_enc_wrap_conditions",
+      # wss: TLS whatever tls.enable says; the identity rule against the endpoint that terminates it
+      "clientTls_isSome_iff", "wss_tls_config_ignores_enable", "wss_ca_always_verifies", "behindTerminator_session_iff",
+      "wssSessionVia_eq", "wss_tls_enable_irrelevant", "wss_client_refuses_other_identity",
+      "wss_session_requires_matching_identity", "interpretedOkWss_identity", "gen_connector_tls_required",
+      # the configuration as written by the operator: Complete / NewProxy message / frps's configurer keep the flags
+      "pxTypes_complete", "plugins_complete", "completePlugin_only_http2", "complete_keeps_flags", "complete_writes_only",
+      "marshal_unmarshal_flags", "written_enc_both_ends", "written_payload_clear_iff",
+      "written_enc_payload_never_clear", "written_reload_enc_payload_never_clear", "writtenKeptOk_model",
+      "writtenObsOk_model", "gen_proxy_complete", "gen_visitor_complete"]
 
 PROP = {
         "level": "other",
@@ -95,7 +115,12 @@ PROP = {
                 "certificates made at run time with crypto/x509: CA1, CA2, server cert with SANs frps.test+127.0.0.1, client "
                 "certs from CA1 / CA2) through the real client.NewConnector against a real frps that listens on tcp (muxed "
                 "plain / tls / websocket), kcp and quic: the complete lattice over tcp, websocket and quic with the right key "
-                "and a generated third of it with a wrong key, generated samples over wss (48) and kcp (6); the identity "
+                "and a generated third of it with a wrong key, generated samples over kcp (6) and over wss straight to frps (48: frps does "
+                "not terminate wss, never a session); wss the way it is deployed — through a TLS terminator of the harness in front "
+                "of the real frps that presents a run-time certificate (issuer CA1 / CA2 x 12 SAN kinds) and hands the decrypted "
+                "websocket stream to frps: the identity sub-lattice of a client with a trusted CA (6 name kinds x 12 SAN kinds) with "
+                "transport.tls.enable true AND false (144 cases, terminator issuer / server certificate / client certificate / key "
+                "generated) plus 80 generated cases (no CA, another CA, forcing frps, frps with a CA), predicate interpretedOkWss; the identity "
                 "sub-lattice: a verifying client (TLS on, CA1 trusted) with every kind of server name — none with serverAddr "
                 "127.0.0.1, none with serverAddr localhost, frps.test, other.test, 127.0.0.1, 127.0.0.9 — against a frps whose "
                 "CA1 certificate has every DNS SAN kind x IP SAN kind (12), over tcp, websocket and quic (216 cases, force / "
@@ -115,8 +140,25 @@ PROP = {
                 "a proxy removed / added back; the same configuration again; the session cut at the relay (reconnect) — and "
                 "after EVERY step a fresh crypto/rand marker is echoed through each proxy and searched in the capture; the "
                 "Lean predicate reloadObsOk (TLS on, or useEncryption in the configuration in force => marker absent) is "
-                "evaluated on every step, the model state (WireReload.step) is carried along the ops. non-trivial = TLS/refuse sniff, raw peer, TLS handshake attempt, relay run, digest "
-                "produced, CA configured, verifying ident handshake, reload step with traffic; distinct = distinct (op line, result) pairs",
+                "evaluated on every step, the model state (WireReload.step) is carried along the ops; every configuration of a rig (start "
+                "and each reload) is WRITTEN as a frpc configuration file (toml / yaml / json per rig) and read by the real "
+                "config.LoadClientConfig; (h) the configuration as written by the operator: op cfgload — a frpc file with one proxy, "
+                "every proxy type (8) x every client plugin (none + 10) x useEncryption written true / false / not at all (compression, "
+                "bandwidthLimitMode, localIP, user prefix generated; toml / yaml / json / legacy ini) through the real loader "
+                "(parser, legacy conversion, Complete), the real MarshalToMsg and the real config.NewProxyConfigurerFromMsg "
+                "(264 exhaustive + n/10 generated cases), predicate writtenKeptOk (written useEncryption => the loaded configurer, "
+                "the NewProxy message and frps's configurer say useEncryption); ops wstart / wobs — 9 rigs of 10 proxies: one frpc "
+                "file per rig loaded by the real loader, validated, run as a real frpc against a real frps (vhost HTTP / HTTPS and "
+                "tcpmux ports) through the recording relay, covering every (type, plugin) pair that has a conversation — tcp / tcpmux / "
+                "stcp+visitor x every plugin but virtual_net, http x the HTTP-speaking plugins, https x the TLS-speaking ones, udp, "
+                "sudp+visitor (41 pairs) — with useEncryption written on and off (compression generated); per proxy a conversation "
+                "with a fresh crypto/rand marker the way a user reaches that type (remote port, CONNECT, visitor, vhost by Host / "
+                "SNI, datagram) speaking what the plugin expects (raw echo, HTTP, HTTP via proxy, SOCKS5, TLS+raw, TLS+HTTP — in the TLS conversations the marker also travels in the ClientHello as an ALPN protocol "
+                "name, so every conversation has payload bytes that are readable unless a layer of frp covers them) against "
+                "local echo / HTTP / HTTPS / unix-socket / static-file services; reloadObsOk (TLS on, or useEncryption in the WRITTEN "
+                "configuration => marker absent) on every observation. non-trivial = TLS/refuse sniff, raw peer, TLS handshake attempt, relay run, digest "
+                "produced, CA configured, verifying ident handshake, reload step with traffic, loaded file with useEncryption written, "
+                "rig up, conversation carried; distinct = distinct (op line, result) pairs",
         "trusted": COMMON_TRUST + [
             "model Frp/Model/Wire.lean written by hand (sniff, Complete, tls.Config records, dial hooks, message channel "
             "table, wrapper stacks); tied by the wire engine and by the regenerated facts Frp/Gen/AuthFacts.lean "
@@ -137,22 +179,37 @@ PROP = {
             "gen_enc_wrap_conditions (the condition of all six libio.WithEncryption wraps), gen_client_tls_config and "
             "gen_connector_server_name (every field NewClientTLSConfig writes with its guard; where the server name comes "
             "from), and by the rstart / rload / rconn ops",
+            "model Frp/Model/WireConfig.lean written by hand (ProxyBaseConfig.Complete, the plugin options' Complete, "
+            "MarshalToMsg / UnmarshalFromMsg, NewProxyConfigurerFromMsg); tied by the regenerated facts gen_proxy_complete (the "
+            "ONE Complete(string) method of pkg/config/v1, every receiver-rooted assignment / call statement / address-of in it, "
+            "every statement of the plugin options' Complete methods, the flag statements of Marshal / Unmarshal, the Complete "
+            "calls of the loader and of NewProxyConfigurerFromMsg, the type and plugin name lists), gen_visitor_complete, and by "
+            "the cfgload / wstart / wobs ops; the file parsers and the legacy ini conversion are not modelled (driven); code "
+            "between the loader and NewWrapper that could rewrite a configurer (validation, client.Service) is covered by the "
+            "rigs only",
+            "wss: `Wire.wssSessionVia` (the connector's tls.Config against a TLS terminator, then a plain websocket client at "
+            "frps) written by hand; tied by gen_connector_tls_required (the provenance of realConnect's `tlsEnable`, every TLS / "
+            "hook dial option with its switch case) and by the cert ops with `term=`; the terminator is the harness's "
+            "(crypto/tls server + byte relay), it asks for no client certificate",
         ],
         "assumptions": [
             "PARTIAL / level other: that TLS and AES-CFB output does not reveal its plaintext is cryptography and is not "
             "stated; the theorems say which layers every message kind and the payload pass (for every configuration), the "
-            "engine observes marker absence on a real wire for 28 configurations (tcp, websocket, quic) and after every step of 15 reload histories",
+            "engine observes marker absence on a real wire for 28 configurations (tcp, websocket, quic), after every step of 15 reload "
+            "histories and for 82 proxies (every type x plugin pair with a conversation) of 9 rigs loaded from written files",
             "the message-to-channel table (`channel`) is hand-read from every msg.WriteMsg / dispatcher Send site; only "
             "NewControl's cipher wrap and the secret-named fields are regenerated by the translator",
             "driven transports: recording relay (marker absence): tcp with and without tcpMux, websocket, quic (recording "
             "UDP relay in front of the quic port); session / identity rules: tcp, websocket, quic (complete certificate "
-            "lattice), wss and kcp (samples); no recording relay in front of the kcp port; OIDC bearer tokens (Login.PrivilegeKey holds the token "
+            "lattice), wss through a TLS terminator (identity sub-lattice x tls.enable), kcp (samples); no recording relay in front of the kcp port; OIDC bearer tokens (Login.PrivilegeKey holds the token "
             "itself under auth.method=oidc) and NewProxy.GroupKey are outside the property's wording and not modelled",
             "server-name domain of the model: IPv4 literals in dotted-decimal form and host names compared exactly (lower case); "
             "IPv6 / bracketed literals, upper case, trailing dots and wildcard SANs are generated but skipped by the driver "
             "(counted as skipped)",
             "reload histories are driven for the proxy manager (tcp and udp proxies, TLS off and on, tcpMux on and off); the "
-            "visitor manager's reload (same two loops) and the other proxy types are covered by the model only; with "
+            "visitor manager's reload (same two loops) is covered by the model only, the other proxy types and the client plugins "
+            "by the written-configuration rigs (start only, no reload); xtcp (peer-to-peer, not on the frpc<->frps path) and "
+            "the virtual_net plugin (needs a TUN device) are loaded (cfgload) but carry no traffic here; with "
             "compression and no cipher on a clear transport whether a marker survives the compressor is taken from the "
             "observation",
             "observation recorded as theorem secretlyProtected_iff / emptyToken_witness: both AES-CFB layers are keyed "
@@ -166,9 +223,11 @@ META = {
         "technique": "Lean 4 decision theorems over the full configuration space (first-byte partition for all bytes, forced "
                      "TLS, tls.Config identity settings incl. the x509 name rule for host names / IP literals, layer table for "
                      "all 18 message kinds x every path configuration), an invariant over all reload / reconnect histories of "
-                     "the client proxy manager, "
+                     "the client proxy manager, the path from the written proxy configuration (Complete, NewProxy message, frps's "
+                     "configurer) to the cipher layer for every proxy type x client plugin, wss against a TLS terminator, "
                      "facts regenerated from the Go source, and an observed wire (recording relay between real frpc and frps, "
-                     "exhaustive sniff, raw-peer and certificate lattices, reload histories with fresh markers after every step)",
+                     "exhaustive sniff, raw-peer and certificate lattices, reload histories with fresh markers after every step, "
+                     "configuration files through the real loader into real frpc rigs with every client plugin)",
         "text": "Partial (cryptographic secrecy is not expressible). Proved for the model, kernel-checked: a forcing server "
                 "(force, or a trusted CA) never treats any first byte as plaintext and a peer that does not complete an "
                 "acceptable TLS handshake never reaches message decoding — on every public listener (tcp, tls-muxed, kcp, "
@@ -177,7 +236,11 @@ META = {
                 "client with a CA verifies chain and server name and gets no session with another identity — for host names and "
                 "IP literals (Go's rule: an IP literal matches IP SANs only), given or defaulted from serverAddr, on every "
                 "control transport: a session implies a certificate of the trusted CA whose SANs of the name's own kind contain "
-                "the name; in every history of an frpc (any start configuration, any sequence of reloads and reconnects) the "
+                "the name; a wss client builds the full configured tls.Config whatever transport.tls.enable says and gets a session "
+                "through a TLS terminator only if the terminator's certificate is of the trusted CA and valid for the name; "
+                "ProxyBaseConfig.Complete (the only Complete of the proxy configurers), the NewProxy message and frps's configurer "
+                "keep useEncryption / useCompression as written for every proxy type x client plugin x name prefix, so both ends "
+                "wrap exactly when the operator wrote useEncryption; in every history of an frpc (any start configuration, any sequence of reloads and reconnects) the "
                 "configuration a running proxy was built from — the one its work connections are wrapped by and the one frps "
                 "was told — is the entry of the configuration in force, so a proxy whose current configuration says "
                 "useEncryption has the cipher layer; the token "
@@ -186,11 +249,13 @@ META = {
                 "and the payload are under TLS; without TLS exactly Login, LoginResp, NewWorkConn, StartWorkConn, NatHoleSid, "
                 "NewVisitorConn(Resp) (and unencrypted payload) are readable; useEncryption puts the cipher layer on both "
                 "ends in the same order. Observed on the real code on every run: 512 sniff cases, 512 raw-peer cases, about 3800 "
-                "certificate cases over tcp / websocket / quic / wss / kcp (incl. the identity sub-lattice over 12 SAN kinds), 500 "
+                "certificate cases over tcp / websocket / quic / wss / kcp (incl. the identity sub-lattice over 12 SAN kinds; 224 wss cases "
+                "through a TLS terminator), about 560 configuration files through the real loader, 9 rigs / 82 proxies with every "
+                "client plugin carrying fresh markers, 500 "
                 "handshakes of NewClientTLSConfig's config against certificates of every SAN kind, 28 recorded frpc<->frps sessions "
                 "(tcp, websocket, quic) with random markers, 15 reload histories of a real frpc (about 75 steps, each with fresh markers), "
                 "3000 token-setter cases.",
-        "note": "Trusted: Lean kernel; hand-written model Frp/Model/Wire.lean; translator gen_authfacts.go; harness. Assumed: "
+        "note": "Trusted: Lean kernel; hand-written models Frp/Model/Wire.lean, WireReload.lean, WireConfig.lean; translator gen_authfacts.go; harness (incl. its TLS terminator for wss). Assumed: "
                 "crypto/tls, crypto/x509, golib crypto. Not covered: marker observation on the kcp UDP path, OIDC bearer token in "
-                "Login, group keys, xtcp peer-to-peer traffic (not on the frpc<->frps path).",
+                "Login, group keys, xtcp peer-to-peer traffic (not on the frpc<->frps path), traffic through the virtual_net plugin.",
     }
